@@ -11,10 +11,14 @@ CHECKS = {
         category="proof",
         text=("Lean 4 theorems (BlocV.Proofs.C03) prove, for ALL Int64 operands, that the model of op_add/sub/mul/neg/"
               "div/mod/exp/pop/pus/and/ior/xor equals the mathematical specification of the manual (exact result mod 2^64, "
-              "truncating / and % with DIVIDE_BY_ZERO, zero-fill shifts with reversal and >=64 -> 0, exact power by "
-              "squaring); the model is tied to /repo on every run by an exhaustive lattice^2 + seeded random differential "
+              "truncating / and % with DIVIDE_BY_ZERO and defined at MIN/-1, zero-fill shifts with reversal and >=64 -> 0, exact "
+              "power by squaring, & | ^ ~ bitwise on all 64 bits; int_ops_total / integer_is_integer / evalBin_int connect them to "
+              "what evalBin executes); mixed_is_decimal (an operation with a decimal operand yields a decimal, all values); "
+              "int_of_decimal_spec: for ALL 2^64 bit patterns int(decimal) succeeds exactly when the double's exact value "
+              "(Spec/Float.lean: scaled integer / 2^1074) truncates into [-2^63, 2^63), returns that truncation, OUT_OF_RANGE "
+              "otherwise (NaN/inf never succeed); 35 theorems. The model is tied to /repo on every run by an exhaustive lattice^2 + seeded random differential "
               "run of the rebuilt library (ASan+UBSan) against the compiled Lean model, bit-exact also for decimals and int(decimal)."),
-        design_ref="DESIGN.md §6 C03",
+        design_ref="DESIGN.md §6 C03, §11, notes/NOTES-p0305.md",
         note=("Trusted: Lean kernel (axioms propext, Classical.choice, Quot.sound only; audited per theorem each run), the "
               "hand-written model's correspondence to the C++ is *tested* (exhaustive over the boundary lattice, sampled "
               "elsewhere), IEEE-754 + - * / pow are the platform's (executed bit-exactly on both sides, not proved)."),
@@ -26,7 +30,8 @@ CHECKS["C04"] = dict(
     text=("Lean 4 theorems (BlocV.Proofs.C04): for every operand the parser admits to a logical operator (true, false, "
           "untyped null, boolean-typed null — any minor) AND/OR/XOR/NOT equal Kleene's tables, are symmetric, and their "
           "truth value is independent of the type carried by the null; all six relational operators return null when "
-          "either operand is null, for ALL values; a null condition takes the false branch. Tied to /repo by a complete "
+          "either operand is null, for ALL values; a null or false condition takes the false branch of if / ends while at "
+          "statement level (if_null_condition_takes_false_branch, while_null_condition_ends); null_literal_stable. Tied to /repo by a complete "
           "enumeration of operand class x provenance (variable, constant, constructor, function result, table element, "
           "tuple item) x operator, each expression evaluated five times per program, with deep variable dumps."),
     design_ref="DESIGN.md §6 C04",
@@ -38,12 +43,19 @@ CHECKS["C10"] = dict(
     category="proof",
     text=("Lean 4 model of the string/bytes/conversion built-ins (substr family, strpos, replace, trim family, upper/lower, "
           "tokenize, strlen, hex, hash, chr, raw, str incl. an exact %.16g, int, Base64) as total functions over byte lists "
-          "with C hazards as outcomes; theorems (BlocV.Proofs.C10) for the byte-range contract of chr, Base64 and integer "
-          "text round trips and index contracts; tied to /repo by exhaustive short-string x position-lattice calls "
+          "with C hazards as outcomes; 38 theorems (BlocV.Proofs.C10): b64dec_b64enc for ALL byte lists (and through evalBuiltin), "
+          "int_str_roundtrip for every Int64 incl. INT64_MIN, substr/subraw (2 and 3 arguments) = the independent Spec.Text.substr "
+          "for all strings and all Int64 positions/counts outside the one recorded overflow point (substr_full_false proves the "
+          "negation there), lsubstr/rsubstr without exclusion, substr_returns_sublist (whatever is returned is the typed null, the "
+          "argument, or a contiguous sublist: never data from outside), null in => typed null out, text_builtins_no_hazard (21 "
+          "built-ins x every argument list outside the decidable knownHazard region = exactly the three open findings; "
+          "hex_hazard_region exact), strpos / replace / upper / lower / trim / strlen / hex / raw / hash / tokenize_join contracts, "
+          "chr / put / concat code range. Tied to /repo by exhaustive short-string x position-lattice calls "
           "(arguments as variables and as temporaries, argument variables dumped after the call) under ASan+UBSan."),
-    design_ref="DESIGN.md §6 C10",
+    design_ref="DESIGN.md §6 C10, §11, notes/NOTES-p10.md",
     note=("Trusted: Lean kernel; correspondence is tested (exhaustive over the stated alphabet/lattice, sampled beyond); "
-          "strtod (num/isnum on text) is libc: only the isnum<=>num consistency is checked, on the implementation; "
+          "strtod (num/isnum on text) is libc and %.16g printing goes through the kernel-opaque Float: num(str(d)) = d and "
+          "isnum <=> num are checked on the implementation only (not theorems); "
           "recorded hazard regions (decimal positions outside int64, INT64_MIN start) are listed in known_findings.json."),
     technique="Lean 4 proof over a hand model + differential correspondence (exhaustive short strings x lattice)")
 
@@ -56,10 +68,11 @@ CHECKS["C13"] = dict(
           "such a fragmentation iff no line exceeds max (lineReader_aligned), CRLF = LF, hence layout independence for texts "
           "with lines <= 1023 bytes and no NUL; the full property is FALSE on this tree and its negation is proved at "
           "concrete witnesses (recorded known findings). Tied to /repo by comparing Parser::pop() token streams under every "
-          "single split, multi-splits, fixed sizes and the library's own reader, and by comparing the rule list with tokenizer.lex."),
+          "single split, multi-splits, fixed sizes, the library's own StringReader and the command line's ReadFile "
+          "(apps/read_file.cpp on a FILE*), in LF and CRLF form incl. lines whose CR / LF fall on the 1023-byte buffer edge, and by comparing the rule list with tokenizer.lex."),
     design_ref="DESIGN.md §6 C13, notes/NOTES-C13.md",
     note=("Trusted: Lean kernel; the flex-generated automaton (lex._tokenizer.c) is compared with the model on token streams, "
-          "not translated; apps/read_file.cpp modelled by reading only (same discipline as StringReader)."),
+          "not translated; StringReader and ReadFile share one model reader (lineReader 1023 after CR removal)."),
     technique="Lean 4 proof (chunked lexer = whole lexer on line-aligned fragmentations) + token-stream correspondence")
 
 CHECKS["C18"] = dict(
@@ -78,88 +91,128 @@ CHECKS["C18"] = dict(
 
 CHECKS["C06"] = dict(
     category="proof",
-    text=("Lean 4 interpreter model (BlocV/Model/Interp.lean: statements, loop combinators forLoop/whileLoop transcribing "
-          "FORStatement/WHILEStatement::doit, blocks, signals) with theorems in BlocV.Proofs.C06 about the loop combinators for "
-          "arbitrary bodies; tied to /repo by an exhaustive for-header lattice (first, limit, step, direction incl. INT64 "
-          "extremes and nulls), bounded-exhaustive nestings with every exit at every position, bodies modifying the control "
-          "variable, and seeded random structured programs; printed iterator sequences, final variables, control/exec depth "
-          "and constraint flags compared with the model."),
-    design_ref="DESIGN.md §6 C06",
+    text=("Lean 4 interpreter model (BlocV/Model/Interp.lean: statements, the loop combinators forLoop / whileLoop / forallLoop "
+          "transcribing FORStatement / WHILEStatement / FORALLStatement::doit, forall iterators as pointers into the traversed "
+          "table with forallExit = finalizeControl, blocks, signals). Theorems (BlocV.Proofs.C06, 41): exec_for_visits — the `for` "
+          "statement runs its body exactly over Spec.forRange for ALL Int64 first/limit/step and the three directions "
+          "(forLoop_visits_up/down: no wrap-around at INT64_MAX/MIN), forRange_closed_form/length, exec_for_terminates, null "
+          "first/limit/step => zero iterations, step < 1 => OUT_OF_RANGE before anything runs; exec_forall_var_visits — forall "
+          "visits exactly forallOrder (each index once, requested order), exec_let_through_iterator — a write through the iterator "
+          "replaces exactly that element; iters_balanced / exec_iters_frames — by mutual induction over the whole interpreter: "
+          "after ANY statement, block, call or expression, whatever the outcome (any flow, BLOC error, hazard, out of fuel), the "
+          "stack of running forall loops is what it was (no iterator constraint or table lock survives), forallExit_pops resets "
+          "the iterator; break/continue/return/error lemmas for the three loops; execList_stops. Tied to /repo by an exhaustive "
+          "for-header lattice (incl. INT64 extremes and nulls), forall families (sizes 0..4 and null x direction x variable / "
+          "temporary source x read / write through the iterator / break / continue / raise / return at each index; nested on one "
+          "and two tables; table changed and iterator retyped afterwards), bounded-exhaustive nestings of for/while/forall with "
+          "every exit at every position, bodies modifying the control variable, and seeded random structured programs (half with "
+          "tables); printed sequences, final variables, control/exec depth and constraint flags compared with the model."),
+    design_ref="DESIGN.md §6 C06, §11, notes/NOTES-p0608.md",
     note=("Trusted: Lean kernel; the interpreter model evaluates over values (C05 links it to the storage discipline); "
-          "correspondence tested; forall is covered by C09's table model."),
-    technique="Lean 4 proof over an interpreter model + program-level differential correspondence")
+          "correspondence tested. The compile-time refusal of changing a traversed table is C09's/C11's subject; forall over a "
+          "temporary is covered by the correspondence, its statement-level theorem is for a variable source. One known finding "
+          "(assigning a null to a for control variable dereferences null)."),
+    technique="Lean 4 proof over an interpreter model (loop theorems vs Spec.forRange / forallOrder, control-stack balance by mutual induction) + program-level differential correspondence")
 
 CHECKS["C07"] = dict(
     category="proof",
-    text=("Lean 4 theorems (BlocV.Proofs.C07) over the interpreter model: the catchable set is generated from "
+    text=("Lean 4 theorems (BlocV.Proofs.C07, 18) over the interpreter model: the catchable set is generated from "
           "RuntimeError::THROWABLES and `when others` matches exactly user names + OUT_OF_RANGE + DIVIDE_BY_ZERO; a named "
           "built-in clause matches exactly its error; the FIRST matching clause of the block runs from the state the error "
-          "left (handler_selection), an unmatched or uncatchable error leaves the block unchanged and reaches the host, an "
-          "error inside a handler propagates; tied to /repo by generated nestings x failing operation x handler-name sets at "
-          "two levels, each followed by a probe program in the same context, with control/exec depth and constraint flags "
-          "read through the BLOC_VERIF accessors (no residue)."),
-    design_ref="DESIGN.md §6 C07",
-    note=("Trusted: Lean kernel; the absence of residue in the C++ control stacks is observed (dump after every run + probe "
-          "program), not proved: the value-level model has no such state by construction; C++ unwinding assumed to run the "
-          "transcribed catch blocks; the interactive runner (apps/cli_parser.cpp) is covered by C19."),
+          "left (handler_selection); an unmatched or uncatchable error leaves the block unchanged and reaches the host; nested "
+          "blocks: inner_unmatched_reaches_outer, inner_matching_handles; error_in_callee_reaches_callers_block; "
+          "no_residue_control_stack / no_residue_after_run (the forall/iterator stack after a handled or reported error is what "
+          "it was before the block: uses C06.iters_balanced), handled_flow_is_handlers_flow (a pending break/continue/return is "
+          "the handler's, nothing is left behind), continues_after_handled; raise_outcome, user_raise_matches_same_name / "
+          "_not_matched_by_other_name. Tied to /repo by generated nestings x failing operation x handler-name sets at two levels, "
+          "each followed by a probe program in the same context, with control/exec depth and constraint flags read through the "
+          "BLOC_VERIF accessors (no residue)."),
+    design_ref="DESIGN.md §6 C07, §11, notes/NOTES-p0608.md",
+    note=("Trusted: Lean kernel; the C++ control stacks (for/while `safety`, exec level) other than the forall stack have no "
+          "counterpart in the value-level model: their emptiness after an error is observed (dump after every run + probe "
+          "program), not proved; error@1/@2 are not modelled; C++ unwinding assumed to run the transcribed catch blocks; the "
+          "interactive runner (apps/cli_parser.cpp) is covered by C19."),
     technique="Lean 4 proof over an interpreter model + generated-nesting differential correspondence")
+
 CHECKS["C08"] = dict(
     category="proof",
-    text=("Lean 4 theorems (BlocV.Proofs.C08): a call equals finishCall(caller, body run from calleeInit(f, argument values)) "
-          "— the callee starts from typed nulls for its own symbols plus bound parameters, independent of the caller's "
-          "variables and of any earlier call; the caller's variables are untouched; a failing argument fails the call; at "
-          "recursion depth 255 the call raises RECURSION_LIMIT without evaluating anything; RECURSION_LIMIT is generated "
-          "from functor_manager.h. Tied to /repo by placing the same probe call after generated call histories (conditionally "
-          "assigned / re-typed locals, recursion to the limit, mutual recursion, failing calls, overloads, self-calling arguments)."),
-    design_ref="DESIGN.md §6 C08",
+    text=("Lean 4 theorems (BlocV.Proofs.C08, 15): a call equals finishCall(caller, body run from calleeInit(f, argument values)); "
+          "call_independent_of_caller / call_determined_by_argument_values — result, output and callee run depend on the caller "
+          "only through the output stream and work budget, for the full callFunc incl. argument evaluation; "
+          "callee_cannot_modify_caller, caller_untouched; locals_start_unset (every declared symbol a typed null at every call); "
+          "argument_bound_by_value; overload_by_arity, overloads_coexist; failing_argument_fails_call; recursion_limit (depth 255 "
+          "raises RECURSION_LIMIT without evaluating anything; the constant is generated from functor_manager.h) and "
+          "recursion_limit_exact (255 nested calls succeed, the 256th raises — by kernel evaluation of a concrete recursive "
+          "function). Tied to /repo by placing the same probe call after generated call histories (conditionally assigned / "
+          "re-typed locals, recursion to the limit, mutual recursion, failing calls, overloads, self-calling arguments)."),
+    design_ref="DESIGN.md §6 C08, §11, notes/NOTES-p0608.md",
     note=("Trusted: Lean kernel; the model creates a fresh callee state per call, the C++ recycles contexts and resets them "
-          "(fix commit): their equivalence is exactly what the correspondence tests."),
+          "(fix commit b7b8574): their equivalence is exactly what the correspondence tests. random()/stdin are documented global "
+          "inputs and not modelled; n-parameter binding by value is proved for one parameter and tested for more."),
     technique="Lean 4 proof over an interpreter model + call-history differential correspondence")
 
 CHECKS["C05"] = dict(
     category="proof",
     text=("Lean 4 storage-level model (BlocV/Model/Store.lean: variable / constant / temporary cells with the LVALUE flag, "
-          "Pool::keep, LVAL1/LVAL2, which operand each operator cell returns or overwrites, storeVariable's swap/clone) and the "
-          "frame theorem (BlocV.Proofs.C05.eval_frame): under the flag invariant, evaluating ANY expression over constants, "
-          "variables and the unary/binary operators leaves every variable slot and constant cell unchanged and re-establishes "
-          "the invariant; assignment preserves it (store_preserves). Tied to /repo by evaluating every operator / built-in "
-          "node x operand class x operand source three times through Expression::value with deep dumps (value, type, LVALUE "
-          "flag) of every variable slot before and after, and by random alias programs against the value-semantics interpreter."),
-    design_ref="DESIGN.md §6 C05",
+          "Pool::keep, LVAL1/LVAL2, which operand each operator cell returns or overwrites, storeVariable's swap/clone). "
+          "Theorems (BlocV.Proofs.C05): eval_frame (under the flag invariant, evaluating ANY expression over constants, variables "
+          "and the operators leaves every variable slot and constant cell unchanged and re-establishes the invariant), "
+          "eval_refines (the storage-level evaluator computes exactly the value-level result, same errors), eval_pool_discipline, "
+          "eval_after / eval_twice_equal / eval_error_repeatable (temporaries of one expression never leak into the next; equal "
+          "results on re-evaluation), assign_copies, assign_independent (after b = a no later store to one is visible through the "
+          "other), assign_refines, assigns_leave_others (any sequence of assignments not targeting b leaves b alone). Tied to /repo "
+          "by evaluating every operator / built-in node x operand class x operand source three times through Expression::value "
+          "with deep dumps (value, type, LVALUE flag) of every variable slot before and after, and by random alias programs — "
+          "since this round also with tables: copy a table, change the original in place (concat/put) and through a forall "
+          "iterator, print both — against the value-semantics interpreter (Model/Interp.lean)."),
+    design_ref="DESIGN.md §6 C05, §11, notes/NOTES-p0305.md",
     note=("Trusted: Lean kernel; the per-operator placement table (which operand is returned/overwritten) is transcribed by hand "
-          "and its observable consequences are tested; container elements and function-call results are covered at program level "
-          "only (C09 for containers); C++ move semantics assumed to be value moves."),
-    technique="Lean 4 proof (frame theorem over a storage-level model) + dump-based differential correspondence")
+          "and its observable consequences are tested; container elements, in-place members, tab/tup construction and "
+          "user-function arguments are NOT in the storage-level model (LExpr has constants, variables, operators): for them "
+          "value semantics is what the interpreter model assumes and the program-level correspondence tests; objects are shared "
+          "by reference as documented (C17)."),
+    technique="Lean 4 proof (frame + refinement theorems over a storage-level model) + dump-based differential correspondence")
 
 CHECKS["C02"] = dict(
     category="proof",
     text=("Static typing model (Model/Typing.lean: typeChecking/assertTypeUniform, the operators' type() rules, the built-in "
           "signature and result-type tables GENERATED from every builtin_*.cpp/.h on each run) with Lean theorems "
-          "(BlocV.Proofs.C02) that relational operators and unary +/- produce values of exactly their static type for ALL "
-          "operands; the property itself is checked on the implementation node by node — Expression::type() in parsing mode "
-          "vs the type of the evaluated value for every operator and ~45 built-ins x operand classes x (typed variable | opaque "
-          "function result) — and program by program (one unit vs statement-at-a-time; `$` variables and loop iterators). "
-          "Cells where the compile-time type is contradicted at run time are recorded known findings."),
-    design_ref="DESIGN.md §6 C02",
-    note=("Trusted: Lean kernel, extract/sigs.py; type soundness is proved for part of the operator set only — the rest of the "
-          "matrix is decided by exhaustive comparison of static and dynamic types on the implementation, which is testing."),
-    technique="generated typing tables + Lean proof (operator subset) + exhaustive static/dynamic type comparison")
+          "(BlocV.Proofs.C02): bin_type_sound — for the 15 binary operators other than - * / ** % an .ok result has EXACTLY the "
+          "static type, all operands; bin_type_sound_static_partial — for all 20 operators with exact or opaque operand types, "
+          "outside the decidable region binTypeGap, whose exactness is proved (bin_type_gap_exact: inside it every result "
+          "contradicts the static type; witnesses `null - 1`, `null % null`, `idf(5) - 3` replayed on the implementation = "
+          "recorded known findings); un_type_sound for all unary operators; accept_implies_no_type_error_partial (+ negations: "
+          "`true + false`, `t < t`, `5 % ii`, `~2.5` are accepted and fail at run time); builtin_type_sound_partial for 16 "
+          "built-ins (negation: b64dec(null)). The property itself is also checked on the implementation node by node — "
+          "Expression::type() in parsing mode vs the type of the evaluated value for every operator and ~45 built-ins x operand "
+          "classes x (typed variable | opaque function result) — and program by program (one unit vs statement-at-a-time; `$` "
+          "variables, loop iterators, retyping)."),
+    design_ref="DESIGN.md §6 C02, §11, notes/NOTES-p0102.md",
+    note=("Trusted: Lean kernel, extract/sigs.py. The full statement is FALSE on this tree (arithmetic with an untyped null / "
+          "opaque operand is typed decimal statically): 20 recorded known findings by operator / built-in cell. Built-ins outside "
+          "the 16 proved ones and container members are decided by the exhaustive static/dynamic comparison (testing)."),
+    technique="generated typing tables + Lean 4 type-soundness theorems with exact gap regions + exhaustive static/dynamic type comparison")
 
 CHECKS["C01"] = dict(
     category="proof",
     text=("C-level hazards (null dereference of a typed accessor, signed overflow, out-of-range double->integer cast, foreign "
-          "exception, divergence) are OUTCOMES of the Lean model, not things it cannot do: theorems (BlocV.Proofs.C01 together "
-          "with C03 div_mod_no_hazard / pow_no_hazard) show the modelled operators never reach one; for the constructs where the "
-          "pinned code does reach one, the exact region is a recorded known finding. Tied to /repo by running EVERY built-in "
-          "(generated keyword list) x arity x operand class x operand source, every operator and member method, and generated "
-          "programs mutated at every token position + byte edits, under ASan+UBSan+float-cast-overflow through Parser::parse, "
-          "the C API and the statement-at-a-time path: any outcome other than value / parse error / runtime error is reported."),
-    design_ref="DESIGN.md §6 C01",
-    note=("Trusted: Lean kernel; sanitizers as the oracle for undefined behaviour; the no-hazard theorems cover the modelled "
-          "operators — for built-ins and members the verdict comes from the exhaustive sanitizer run (testing), with every "
-          "crash either a listed known finding (construct + crash class + witness) or a violation. Stack/heap exhaustion is "
-          "outside the property's domain (bounded nesting / sizes in the generators)."),
-    technique="Lean 4 no-hazard theorems (operators) + exhaustive construct x operand-class sanitizer run + token-level text mutation")
+          "exception, divergence) are OUTCOMES of the Lean model, not things it cannot do. Theorems (BlocV.Proofs.C01): "
+          "evalUn_no_hazard and evalBin_no_hazard — every unary and all 20 binary operators, EVERY pair of values (nulls, typed "
+          "nulls, tables, tuples, every Int64, every double), both aliasing flags, never reach a hazard (hypothesis: table values "
+          "have level >= 1, shown necessary by evalBin_hazard_witness and preserved by evalBin_ok_tabOk); pure_no_hazard lifts this "
+          "to every expression tree incl. short circuit; evalBuiltin_no_hazard_partial: 18 built-ins for all argument lists; "
+          "evalBuiltin_hazard_witness: the three recorded overflow regions (substr/subraw at INT64_MIN, hex pad count) are exactly "
+          "reproduced; int_of_decimal_no_hazard for all 2^64 bit patterns. Tied to /repo by running EVERY built-in (generated keyword "
+          "list) x arity x operand class (boundary values always) x operand source, every operator and member method, and generated "
+          "programs mutated at every token position + byte edits, under ASan+UBSan+float-cast-overflow through Parser::parse, the C "
+          "API and the statement-at-a-time path: any outcome other than value / parse error / runtime error is reported."),
+    design_ref="DESIGN.md §6 C01, §11, notes/NOTES-p0102.md",
+    note=("Trusted: Lean kernel; sanitizers as the oracle for undefined behaviour; for the built-ins and members not covered by "
+          "a no-hazard theorem the verdict comes from the exhaustive sanitizer run (testing), with every crash either a listed "
+          "known finding (construct + crash class + witness) or a violation. Stack/heap exhaustion is outside the property's "
+          "domain (bounded nesting / sizes in the generators). The parser itself is not modelled here (C12/C13 model it): "
+          "malformed text is covered by mutation testing only."),
+    technique="Lean 4 no-hazard theorems (all operators, 18 built-ins, expression trees) + exhaustive construct x operand-class sanitizer run + token-level text mutation")
 
 CHECKS["C19"] = dict(
     category="proof",
